@@ -62,6 +62,34 @@ def run(ck):
     # a verifier rebuilt from bytes must bind the label as well
     S.cmd("blobof", "vb1", "verifier", "kL1"); S.cmd("decode", "verifier", "vb1", "kL1r")
     expect_err(S.cmd("verify", "kL1r", "pL0", "="), "proof under 'label-v10' verified by a decoded 'label-v1' verifier", "label-prefix")
+    if not quick:
+        import itertools
+        # every permutation of the five public inputs, every single-bit change of the label, many alternative values
+        for perm in itertools.permutations(range(len(pv))):
+            l = [pv[j] for j in perm]
+            if l != pv: expect_err(S.cmd("verify", "kA", "pA", pis(l)), f"public inputs permuted {perm}", "pi-order")
+        for i in range(len(pv)):
+            for val in [R - 1, 1, (pv[i] - 1) % R, (pv[i] * 2) % R, rng.scalar(), rng.scalar(), 1 << 255 - 1 if False else (1 << 254)]:
+                if val == pv[i]: continue
+                l = list(pv); l[i] = val
+                expect_err(S.cmd("verify", "kA", "pA", pis(l)), f"public input {i} := {val:#x}"[:60], "pi-value")
+        lab = bytes.fromhex("6c6162656c")
+        for bit in range(40):
+            b = bytearray(lab); b[bit // 8] ^= 1 << (bit % 8)
+            S.cmd("compile", f"kB{bit}", "pp", bytes(b).hex(), "A")
+            expect_err(S.cmd("verify", f"kB{bit}", "pA", "="), f"label with bit {bit} flipped", "label")
+        for ext in ("00", "6c", "ff", "6c6162656c"):
+            S.cmd("compile", f"kE{ext}", "pp", "6c6162656c" + ext, "A")
+            expect_err(S.cmd("verify", f"kE{ext}", "pA", "="), f"label extended by {ext}", "label")
+        # a second, larger base circuit with public inputs on the first and last user rows
+        pv2 = [rng.scalar() for _ in range(3)]
+        base2 = [f"pub {hx(pv2[0])}", "w 3", "w 4"] + ["gmul 1 0 0 0 0 3 - $1 $2 0 0"] * 20 + [f"pub {hx(pv2[1])}", "land 4 $1 $2", f"pub {hx(pv2[2])}"]
+        S.circuit("A2", base2); S.cmd("compile", "kA2", "pp", "6c6162656c", "A2"); S.cmd("prove", "pA2", "kA2", "A2", 11)
+        for i in range(3):
+            l = list(pv2); l[i] = (l[i] + 1) % R
+            expect_err(S.cmd("verify", "kA2", "pA2", pis(l)), f"second circuit: public input {i} := +1", "pi-value")
+        expect_err(S.cmd("verify", "kA", "pA2", "="), "proof of the second circuit under A's verifier", "near-miss")
+        expect_err(S.cmd("verify", "kA2", "pA", "="), "proof of A under the second circuit's verifier", "near-miss")
     # versions
     for ver in ("V1", "V2"):
         expect_err(S.cmd("verify", "kA", "pA", "=", ver), f"V3 proof verified as {ver}", "version")
